@@ -9,7 +9,7 @@ import (
 
 // ---------------- scenario generators ----------------
 var nameAlphabet = []string{"a", "b", "c", "d"}
-var subAlphabet = []string{"", "", "", "", "s", "t", "k=1", "k=2"}
+var subAlphabet = []string{"", "", "", "", "", "s", "t", "S", "k=1", "k=2"}
 
 type gctx struct {
 	r       *rng
@@ -21,6 +21,8 @@ type gctx struct {
 	noIface bool
 	built   bool    // some functions are assembled with BuildFunc
 	derived []Field // requirements already made derivable through a converter
+	noExtra bool    // only the named int types
+	zeroUsed bool // at most ONE zero value per scenario (values are identified by their serial)
 	repSub  bool    // type-only struct fields may repeat a type when their subtypes differ
 }
 
@@ -33,6 +35,9 @@ func (c *gctx) sub() string {
 func (c *gctx) ty() int {
 	if !c.noIface && c.r.chance(12) {
 		return ifaceTys[c.r.intn(2)]
+	}
+	if !c.noExtra && c.r.chance(10) {
+		return extraTys[c.r.intn(len(extraTys))]
 	}
 	return concreteTys[c.r.intn(len(concreteTys))]
 }
@@ -126,6 +131,10 @@ func (c *gctx) val(ty int) *Val {
 	t := ty
 	if cc, ok := carrier[ty]; ok {
 		t = cc
+	} else if c.r.chance(8) && !c.zeroUsed {
+		// the zero value of the type (0, nil pointer, nil slice ...) is a value like any other
+		c.zeroUsed = true
+		return &Val{Serial: 0, Ty: t}
 	}
 	return &Val{Serial: c.serial, Ty: t}
 }
@@ -137,6 +146,10 @@ func (c *gctx) exactOpt(f Field) Opt {
 	case f.Name != "" && f.Sub != "":
 		return Opt{Kind: "namedsub", Name: c.casing(f.Name), Sub: f.Sub, Vals: []*Val{v}}
 	case f.Name != "":
+		if c.r.chance(12) {
+			// documented as equivalent to Named
+			return Opt{Kind: "namedsub", Name: c.casing(f.Name), Sub: "", Vals: []*Val{v}}
+		}
 		return Opt{Kind: "named", Name: c.casing(f.Name), Vals: []*Val{v}}
 	case f.Sub != "":
 		if c.r.chance(25) {
@@ -147,6 +160,9 @@ func (c *gctx) exactOpt(f Field) Opt {
 	default:
 		if c.r.chance(15) {
 			return Opt{Kind: "named", Name: "", Vals: []*Val{v}} // documented as equivalent to Typed
+		}
+		if c.r.chance(12) {
+			return Opt{Kind: "typedsub", Sub: "", Vals: []*Val{v}} // documented as equivalent to Typed
 		}
 		return Opt{Kind: "typed", Vals: []*Val{v}}
 	}
@@ -201,6 +217,15 @@ func (c *gctx) derive(f Field, depth int, convs *[]int) []Opt {
 		// one input is a requirement that is ALREADY derivable through another
 		// converter of this scenario: that converter is then needed on two paths
 		g := c.derived[c.r.intn(len(c.derived))]
+		if _, isIface := carrier[g.Ty]; !isIface && c.r.chance(50) {
+			// ... consumed through a DIFFERENT vertex: by type where it was required by name, and
+			// under another name where it was required by type
+			if g.Name != "" {
+				g.Name = ""
+			} else {
+				g.Name = nameAlphabet[c.r.intn(len(nameAlphabet))]
+			}
+		}
 		dup := g.Name == f.Name && g.Ty == f.Ty && g.Sub == f.Sub
 		for _, x := range in {
 			if (x.Name != "" && x.Name == g.Name) || (x.Name == "" && g.Name == "" && x.Ty == g.Ty) {
@@ -255,7 +280,10 @@ func (c *gctx) derive(f Field, depth int, convs *[]int) []Opt {
 			}
 		}
 	}
-	if c.r.chance(10) {
+	if f.Name != "" && f.Sub == "" && !c.noSub && c.r.chance(12) {
+		// the named requirement is produced under a SUBTYPE label (name/T/"" takes from name/T/s)
+		out = []Field{{Name: f.Name, Ty: out[0].Ty, Sub: "s"}}
+	} else if c.r.chance(10) {
 		// a sibling result of the same type: named before type-only
 		g := out[0]
 		if g.Name == "" {
@@ -357,8 +385,9 @@ func genCallScenario(c *gctx, class int) {
 		switch {
 		case class == 1: // exact matches for everything (C03)
 			o := c.exactOpt(f)
-			if f.Name != "" && r.chance(12) && len(o.Vals) == 1 && o.Vals[0] != nil {
+			if f.Name != "" && r.chance(12) && len(o.Vals) == 1 && o.Vals[0] != nil && !c.zeroUsed {
 				o.Vals[0].Serial = 0 // the zero value of the type is a value like any other
+				c.zeroUsed = true
 			}
 			opts = append(opts, o)
 			if f.Name != "" && !c.noSub && r.chance(20) {
@@ -372,6 +401,28 @@ func genCallScenario(c *gctx, class int) {
 				}
 			}
 		case r.chance(12): // hopeless / left to chance
+			if r.chance(60) {
+				// ... but a value with the same label and ANOTHER type is supplied (an
+				// assignable one where the universe has it: chan int for <-chan int)
+				at := -1
+				switch {
+				case f.Ty == 13:
+					at = 9
+				case f.Ty == 7 || f.Ty == 8 || f.Ty == 9 || f.Ty == 14:
+					at = []int{7, 8, 9, 13}[r.intn(4)]
+				case f.Ty == 10 || f.Ty == 11:
+					at = []int{2, 4, 5}[r.intn(3)]
+				default:
+					at = c.cty()
+				}
+				if at != f.Ty {
+					sub := f.Sub
+					if sub == "" && f.Name != "" && !c.noSub && r.chance(40) {
+						sub = "s" // a plain named parameter also takes from same-named values WITH a subtype (of its type only)
+					}
+					opts = append(opts, c.exactOpt(Field{Name: f.Name, Ty: at, Sub: sub}))
+				}
+			}
 		default:
 			opts = append(opts, c.derive(f, 1+r.intn(3), &convs)...)
 		}
@@ -402,6 +453,12 @@ func genCallScenario(c *gctx, class int) {
 	}
 	for i := r.intn(3); i > 0; i-- {
 		opts = append(opts, c.randomOpt())
+	}
+	if r.chance(10) {
+		opts = c.caseDup(opts)
+	}
+	if r.chance(10) {
+		opts = c.altDup(opts)
 	}
 	if r.chance(10) && len(opts) > 0 {
 		opts = append(opts, opts[r.intn(len(opts))]) // duplicate key: last wins
@@ -437,7 +494,12 @@ func genCallScenario(c *gctx, class int) {
 	if r.chance(35) && len(c.sc.Funcs) > 0 {
 		d := c.sc.Funcs[r.intn(len(c.sc.Funcs))]
 		d.Err = true
-		c.sc.Beh = append(c.sc.Beh, BehRow{Fid: d.ID, From: r.intn(3), Kind: 1, Err: 900 + r.intn(6)})
+		from := r.intn(3)
+		if r.chance(35) {
+			// it fails ONCE and works again afterwards (the first matching row decides)
+			c.sc.Beh = append(c.sc.Beh, BehRow{Fid: d.ID, From: from + 1, Kind: 0})
+		}
+		c.sc.Beh = append(c.sc.Beh, BehRow{Fid: d.ID, From: from, Kind: 1, Err: 900 + r.intn(6)})
 	}
 	if r.chance(8) {
 		for _, d := range c.sc.Funcs {
@@ -469,8 +531,8 @@ func genCallScenario(c *gctx, class int) {
 		shuffleOpts(r, opts)
 	}
 	nops := 1
-	if r.chance(25) {
-		nops = 2 + r.intn(2)
+	if r.chance(30) {
+		nops = 2 + r.intn(3)
 	}
 	if class != 1 && len(defaults) > 0 && len(opts) > 1 && r.chance(50) {
 		// f1 := NewFunc(fn, common...); f2 := NewFunc(fn, append(common, X)...): a Call on f1
@@ -498,8 +560,31 @@ func genCallScenario(c *gctx, class int) {
 		}
 	}
 	for i := 0; i < nops; i++ {
-		c.sc.Ops = append(c.sc.Ops, Op{Kind: "call", Target: ti, Defaults: defaults, Opts: opts})
+		o := opts
+		if i > 0 && r.chance(50) {
+			// the same Func is called again with the same keys and FRESH values
+			o = c.revalue(opts)
+		}
+		c.sc.Ops = append(c.sc.Ops, Op{Kind: "call", Target: ti, Defaults: defaults, Opts: o})
 	}
+}
+
+// revalue copies an option list giving every supplied value a fresh identity
+func (c *gctx) revalue(opts []Opt) []Opt {
+	out := make([]Opt, len(opts))
+	for i, o := range opts {
+		out[i] = o
+		if len(o.Vals) > 0 {
+			out[i].Vals = make([]*Val, len(o.Vals))
+			for j, v := range o.Vals {
+				if v != nil {
+					c.serial++
+					out[i].Vals[j] = &Val{Serial: c.serial, Ty: v.Ty}
+				}
+			}
+		}
+	}
+	return out
 }
 
 // generator scenario: converters supplied through ConverterGen
@@ -586,6 +671,9 @@ func genConvertScenario(c *gctx) {
 		convs = append(convs, c.addFunc([]Field{{Ty: t}}, []Field{{Ty: t}}, FPos, FPos))
 		c.sc.Funcs[convs[len(convs)-1]].Err = false
 	}
+	if r.chance(25) {
+		opts = c.caseDup(opts)
+	}
 	opts = append(opts, c.convOpts(convs)...)
 	if r.chance(30) && len(c.sc.Funcs) > 0 {
 		d := c.sc.Funcs[r.intn(len(c.sc.Funcs))]
@@ -593,6 +681,72 @@ func genConvertScenario(c *gctx) {
 		c.sc.Beh = append(c.sc.Beh, BehRow{Fid: d.ID, From: 0, Kind: 1, Err: 901})
 	}
 	c.sc.Ops = append(c.sc.Ops, Op{Kind: "convert", Ty: t, Opts: opts})
+}
+
+// caseDup supplies one of the named values a second time under the same name in
+// another letter case, with a fresh value: the later one wins
+func (c *gctx) caseDup(opts []Opt) []Opt {
+	for i, o := range opts {
+		if (o.Kind == "named" || o.Kind == "namedsub") && len(o.Vals) == 1 && o.Vals[0] != nil && o.Name != "" {
+			dup := o
+			if o.Name == strings.ToLower(o.Name) {
+				dup.Name = strings.ToUpper(o.Name[:1]) + o.Name[1:]
+			} else {
+				dup.Name = strings.ToLower(o.Name)
+			}
+			c.serial++
+			dup.Vals = []*Val{{Serial: c.serial, Ty: o.Vals[0].Ty}}
+			if c.r.chance(50) {
+				return append(opts, dup)
+			}
+			// ... or the upper-case spelling first
+			out := append([]Opt(nil), opts[:i]...)
+			out = append(out, dup)
+			return append(out, opts[i:]...)
+		}
+	}
+	return opts
+}
+
+// altDup addresses the slot of one supplied value a second time through the OTHER
+// spelling of the same key (Typed(v) / TypedSubtype(v, "") / Named("", v);
+// Named(n, v) / NamedSubtype(n, v, "")), with a fresh value: the later option wins
+func (c *gctx) altDup(opts []Opt) []Opt {
+	var idx []int
+	for i, o := range opts {
+		if len(o.Vals) == 1 && o.Vals[0] != nil {
+			switch {
+			case o.Kind == "typed", o.Kind == "typedsub" && o.Sub == "", o.Kind == "named", o.Kind == "namedsub" && o.Sub == "":
+				idx = append(idx, i)
+			}
+		}
+	}
+	if len(idx) == 0 {
+		return opts
+	}
+	i := idx[c.r.intn(len(idx))]
+	o := opts[i]
+	dup := o
+	c.serial++
+	dup.Vals = []*Val{{Serial: c.serial, Ty: o.Vals[0].Ty}}
+	switch {
+	case o.Kind == "typed":
+		dup.Kind, dup.Sub = "typedsub", ""
+	case o.Kind == "typedsub":
+		dup.Kind = "typed"
+	case o.Kind == "named" && o.Name == "":
+		dup.Kind, dup.Sub = "typedsub", ""
+	case o.Kind == "named":
+		dup.Kind, dup.Sub = "namedsub", ""
+	default:
+		dup.Kind = "named"
+	}
+	if c.r.chance(50) {
+		return append(opts, dup)
+	}
+	out := append([]Opt(nil), opts[:i]...)
+	out = append(out, dup)
+	return append(out, opts[i:]...)
 }
 
 // Redefine scenario (C08 domain when strict: single-input converters, no subtypes)
@@ -736,6 +890,18 @@ func genRedefineScenario(c *gctx, strict bool) {
 				defaults = append(defaults, Opt{Kind: "filterin", Flt: &Flt{Kind: 1, Subs: []Flt{{Kind: 0, Ty: c.cty()}}}})
 			}
 		}
+	}
+	if len(opts) > 0 && len(tin) > 0 && r.chance(20) {
+		// first := f.Redefine(base...); second := f.Redefine(append(base, X)...): calling one
+		// redefined function must not rewrite the arguments of the other
+		more := append(append([]Opt(nil), opts...), c.exactOpt(tin[r.intn(len(tin))]))
+		c.sc.Ops = append(c.sc.Ops, Op{Kind: "redefine", Target: ti, Defaults: defaults, Opts: opts})
+		c.sc.Ops = append(c.sc.Ops, Op{Kind: "redefine", Target: ti, Defaults: defaults, Opts: more, ShareOpts: len(c.sc.Ops)})
+		n := len(c.sc.Ops)
+		for _, ref := range []int{n - 1, n - 2, n - 1, n - 2} {
+			c.sc.Ops = append(c.sc.Ops, Op{Kind: "callredef", Ref: ref})
+		}
+		return
 	}
 	if r.chance(20) {
 		c.sc.Ops = append(c.sc.Ops, Op{Kind: "call", Target: ti, Defaults: defaults, Opts: opts})
@@ -1081,6 +1247,22 @@ func genC07(c *gctx, f2 bool) {
 		}
 	}
 	subbed := r.chance(30) // the competing inputs carry a subtype label; the parameter has none
+	if r.chance(25) {
+		// the value named n is the ZERO value of its type
+		c.zeroUsed = true
+		kind, sub := "named", ""
+		if subbed {
+			kind, sub = "namedsub", "x"
+		}
+		opts = append(opts, Opt{Kind: kind, Name: c.casing(n), Sub: sub, Vals: []*Val{{Serial: 0, Ty: T}}})
+		names = names[1:]
+		if multi {
+			names = nil
+			for _, p := range tparams[1:] {
+				names = append(names, p.Name)
+			}
+		}
+	}
 	for _, m := range names {
 		if subbed && (m == n || r.chance(60)) {
 			opts = append(opts, Opt{Kind: "namedsub", Name: c.casing(m), Sub: "x", Vals: []*Val{c.val(T)}})
@@ -1138,14 +1320,53 @@ func init() {
 			c.sc.Ops = append(ops, ops[len(ops)-1])
 			last := &c.sc.Ops[len(c.sc.Ops)-1]
 			last.Kind = "call"
+			if c.r.chance(40) {
+				// the caller keeps ONE option list: Call(full...), Redefine(full[:k]...), Call(full...)
+				first := -1
+				for i, o := range c.sc.Ops {
+					if o.Kind == "call" && len(o.Opts) > 1 && len(o.Defaults) == 0 {
+						first = i
+						break
+					}
+				}
+				if first < 0 && len(c.sc.Ops[0].Opts) > 1 {
+					c.sc.Ops = append([]Op{c.sc.Ops[len(c.sc.Ops)-1]}, c.sc.Ops...)
+					first = 0
+				}
+				if first >= 0 {
+					full := c.sc.Ops[first].Opts
+					for i := first + 1; i < len(c.sc.Ops); i++ {
+						o := &c.sc.Ops[i]
+						switch o.Kind {
+						case "redefine":
+							o.Opts = full[:1+c.r.intn(len(full)-1)]
+							o.SliceOf = first + 1
+						case "call":
+							o.Opts = full
+							o.SliceOf = first + 1
+						}
+					}
+				}
+			}
 		}
 	}, func(tw *Scenario) (*Scenario, func(a, b []string) bool) {
 		var kept []int
 		var ops []Op
+		newIdx := map[int]int{}
 		for i, o := range tw.Ops {
 			if o.Kind == "call" {
+				newIdx[i] = len(ops)
 				kept = append(kept, i)
 				ops = append(ops, o)
+			}
+		}
+		for i := range ops {
+			if ops[i].SliceOf > 0 {
+				if j, ok := newIdx[ops[i].SliceOf-1]; ok {
+					ops[i].SliceOf = j + 1
+				} else {
+					ops[i].SliceOf = 0
+				}
 			}
 		}
 		tw.Ops = ops
